@@ -1,3 +1,4 @@
+import NitroVerif.Lemmas.OptResult
 import NitroVerif.Model.Opt
 
 /-!
@@ -54,5 +55,55 @@ theorem index_in_range (pos : List Str) (i : Int)
 
 example : argGet [['a'], ['b'], ['c']] (-1) = some ['c'] := by decide
 example : argGet [['a'], ['b'], ['c']] (-4) = none := by decide
+
+
+/-- Once in only-positionals mode (after the first `--`, or after the first positional in greedy
+mode) every token is a positional, verbatim — whatever it looks like. -/
+theorem explainGo_onlyPos (d : Decl) (toks : List Str) : explainGo d true toks = some (toks.map .pos) := by
+  induction toks with
+  | nil => rw [explainGo]; rfl
+  | cons tok rest ih =>
+    rw [explainGo]
+    simp only [Bool.true_or, if_true, ih, Option.map_some, List.map_cons]
+
+/-- everything after the first `--` is positional -/
+theorem explain_after_separator (d : Decl) (rest : List Str) :
+    explainGo d false (dashes :: rest) = some (.sep :: rest.map .pos) := by
+  rw [explainGo]
+  have h1 : isValueTok dashes = false := by decide
+  have h2 : isDoubleDashTok dashes = true := by decide
+  simp only [h1, Bool.or_self, Bool.false_eq_true, if_false, h2, if_true, explainGo_onlyPos, Option.map_some]
+
+/-- greedy mode: the first positional turns everything behind it into positionals -/
+theorem explain_greedy (d : Decl) (hg : d.greedy = true) (tok : Str) (rest : List Str)
+    (hv : isValueTok tok = true) : explainGo d false (tok :: rest) = some ((tok :: rest).map .pos) := by
+  rw [explainGo]
+  simp only [hv, Bool.or_true, if_true, hg, explainGo_onlyPos, Option.map_some, List.map_cons]
+
+/-- **The accepted count**: parsing succeeds only with at most the accepted number of positionals,
+which are reported verbatim and in order. -/
+theorem parse_positionals (d : Decl) (hn : (allNames d).Nodup) (env : Env) (argv : List Str) (r : Result)
+    (h : parse d env argv = .ok r) :
+    ∃ items, explain d argv = some items ∧ r.pos = positionalsOf items ∧ tooMany d r.pos.length = false := by
+  obtain ⟨_, items, hex, hi⟩ := parse_ok_inv d hn env argv r h
+  obtain ⟨h1, h2, _⟩ := interp_ok_inv d env items r hi
+  exact ⟨items, hex, h2, by rw [h2]; exact h1⟩
+
+theorem parse_too_many (d : Decl) (hn : (allNames d).Nodup) (hc : consistent d = true) (env : Env)
+    (argv : List Str) (items : List Item) (hex : explain d argv = some items)
+    (h : tooMany d (positionalsOf items).length = true) : parse d env argv = .error .user := by
+  rw [parse_of_explain d hn hc env argv items hex]
+  unfold interp; simp [h]
+
+/-- tokens after `--` reach the result verbatim: a later `--`, a lone `-`, `---x`, `-=x` -/
+theorem parse_after_separator (d : Decl) (hn : (allNames d).Nodup) (env : Env) (rest : List Str) (r : Result)
+    (h : parse d env (dashes :: rest) = .ok r) : r.pos = rest := by
+  obtain ⟨items, hex, hpos, _⟩ := parse_positionals d hn env _ r h
+  unfold explain at hex
+  rw [explain_after_separator] at hex
+  simp only [Option.some.injEq] at hex
+  subst hex
+  rw [hpos]
+  simp [positionalsOf, List.filterMap_map, Function.comp_def]
 
 end NitroVerif.Props.C12
